@@ -31,11 +31,11 @@ PROPS = {
         assumptions=[LEXER_BOUNDED,
                      'VecExt::remove_indices: body PROVED against its contract in unit vec_ext, modulo desugaring R9 (Vec::retain = one closure call per element, in order; survivors are the elements answered true)',
                      'Document passes: preconditions sum of whitespace counts <= usize::MAX and token count + 4 <= usize::MAX (machine assumptions)',
-                     'jsdoc: parse_inline_tag is PROVED (unit jsdoc, R6) and additionally run through bounded Kani harnesses (length <= 6); mark_inline_tags is unverified by both verifiers (closures / kani-compiler 0.68 crash) and covered by rac:comment_frontends only'],
+                     'jsdoc: parse_inline_tag (R6), mark_inline_tags (R8 over a sub-slice, closure annotation, A1 for the kind test) and parse_line (R16) are PROVED in unit jsdoc; parse_inline_tag is additionally run through bounded Kani harnesses (length <= 6)'],
     ),
     'C02': dict(
         level='proof',
-        verus=['lexing', 'url', 'number', 'mask', 'mask_parser', 'document', 'vec_ext', 'comments', 'comments_doc', 'lhs_masker'],
+        verus=['lexing', 'url', 'number', 'mask', 'mask_parser', 'document', 'vec_ext', 'jsdoc', 'comments', 'comments_doc', 'lhs_masker'],
         kani_quick=['lexing.whitespace_5'],
         kani_thorough=['lexing.whitespace_5', 'lexing.whitespace_8', 'lexing.hostname_4', 'lexing.url_4'],
         rac=['lexers', 'lexer_literals', 'url_scanner', 'document_tiles', 'remove_indices', 'condense_indices', 'markdown_tokens'],
@@ -134,10 +134,10 @@ PROPS = {
     ),
     'C04': dict(
         level='exploration',
-        verus=['mask', 'mask_parser', 'comments', 'comments_doc', 'lhs_masker'], kani_quick=[], kani_thorough=[],
+        verus=['mask', 'mask_parser', 'jsdoc', 'comments', 'comments_doc', 'lhs_masker'], kani_quick=[], kani_thorough=[],
         rac=['prose_offsets', 'lhs_prose_offsets', 'html_prose_offsets', 'typst_prose_offsets', 'c04_fixed_files', 'c04_jsdoc_fence', 'c04_tilde_fence', 'c04_go_directive', 'c04_javadoc_pre', 'c04_javadoc_return'],
         unverified=[
-            'BOUNDED ONLY: tree-sitter node selection + byte_spans_to_char_spans (str byte code), the Markdown byte/char bookkeeping, without_initiators (which characters count as comment markers), jsdoc::parse_line / mark_inline_tags; PROVED are the composition steps: parsers::Mask<M,P>::parse (tokens shifted into their chunk, in order, nothing outside the allowed spans emitted as text - given the Masker and inner-Parser contracts), the mask operations push_allowed / merge_whitespace_sep, and the line-based comment parsers Unit / Go / JsDoc / JavaDoc::parse + unit::parse_line (every line\'s tokens moved behind its comment markers and to the line\'s offset; result in bounds and ordered - given the inner-Parser contract)',
+            'BOUNDED ONLY: tree-sitter node selection + byte_spans_to_char_spans (str byte code), the Markdown byte/char bookkeeping, without_initiators (which characters count as comment markers); PROVED are the composition steps: parsers::Mask<M,P>::parse (tokens shifted into their chunk, in order, nothing outside the allowed spans emitted as text - given the Masker and inner-Parser contracts), the mask operations push_allowed / merge_whitespace_sep, and the line-based comment parsers Unit / Go / JsDoc / JavaDoc::parse + unit::parse_line + jsdoc::parse_line / mark_inline_tags (every line\'s tokens moved behind its comment markers and to the line\'s offset; result in bounds and ordered - given the inner-Parser contract)',
             'the git-commit front-end and the other 15 tree-sitter languages are not in the prose-offset checks; for Typst only the declared prose words are demanded (strings handed to functions may or may not be prose), not exactness',
             'files beyond the segment grammar of the check (3 of <=14 segments per language)',
         ],
